@@ -16,4 +16,5 @@ def streams(tier, rng):
     return pc.streams("c07", tier, rng)
 
 
-post = pc.post
+def post(tier, rng, api):
+    return pc.post(tier, rng, api, publication=False)
